@@ -98,6 +98,10 @@ def coverage(S):
         S.cur_site = f"RpcServer.{a.method}:{a.line}: {a.text}"
         S.oblige(f"O1.coverage.{a.method}.{a.field}", a.covered, kind="lock", why=a.why, witness=f"{a.method}:{a.text}")
         writes += 1 if "inside with" in a.why else 0
+        if a.method == "_notify_transport":
+            # the check-then-act of the binding is one critical section: inside _notify_transport even the *reads*
+            # that decide whether the hook runs must be under the lock (the unlocked fast path lives in the callers)
+            S.oblige(f"O1.notify_transport_decides_under_the_lock.{a.field}", "inside with" in a.why, kind="lock", why=a.why, witness=f"{a.method}:{a.text}")
     S.oblige("O1.locked_accesses_found", writes >= 4, kind="lock")
     S.canary("O1.canary.nothing_covered", not any(a.covered for a in acc))
 
